@@ -399,6 +399,9 @@ func TestC10(t *testing.T) {
 		cfg := cdpCfg{priceMoves: true, bids: true, lockers: false, unsolicited: true, liquidateMsg: true, unsafeBias: true, limitBids: true, reserve: variant%3 != 0, maxGap: 2 * 3600 * 1e9}
 		r := newCdpRunner(u, rnd, rec, cfg, newC10Mon(u, rec))
 		r.run(cdpSteps())
+		if variant%3 == 1 { // emergency shutdown while auctions are running: hand-back of the unsold collateral
+			r.esmPhase(appBeacon)
+		}
 		if run == 0 {
 			rec.Sample(map[string]interface{}{"variant": variant, "oplog_tail": r.tail(10)})
 		}
